@@ -1,6 +1,23 @@
-//! C16 — harness module not built yet.
+//! C16 smoke
+use crate::w_airdrop::*;
 use crate::Args;
-pub fn run(_a: &Args) {
-    eprintln!("C16: harness module not built yet");
-    std::process::exit(2);
+pub fn run(a: &Args) {
+    let k = eth_key(a.seed, 0);
+    let spec = WorldSpec::basic(vec![k.addr_lower.clone()], 1);
+    let (b, lenient) = build(&spec); println!("lenient {}", lenient); match b {
+        Built::AirdropRejected { err, creator_paid } => println!("rejected: {} paid {}", err, creator_paid),
+        Built::Ok(mut w) => {
+            let sender = "stars1claimant";
+            let text = spec.template.replace("{wallet}", sender);
+            let sig = personal_sign(&k, &text);
+            println!("addr {} sig {}", k.addr_lower, hex::encode(sig));
+            println!("ind valid: {}", ind_valid_personal_sign(&k.addr_lower, &text, &hex::encode(sig)));
+            println!("airdrop bal {}", w.airdrop_balance());
+            let r = w.claim(sender, &k.addr_lower, &hex::encode(sig));
+            println!("claim: {:?}", r.map(|_| ()));
+            println!("bal {} {} member {:?} count {:?}", w.balance(sender), w.airdrop_balance(), w.has_member(sender), w.raw_count(&k.addr_lower));
+            let r = w.claim(sender, &k.addr_lower, &hex::encode(sig));
+            println!("claim2: {:?}", r.map(|_| ()));
+        }
+    }
 }
